@@ -445,21 +445,28 @@ def concretise(case: dict, v: int, segs: Segments, rng, static: bool = False) ->
         f0 = schema.field(0) if len(schema) else None
         if f0 is not None and pa.types.is_dictionary(f0.type):
             # (dictionary path: the region is decoded under the inline schema) one more column in front
-            good1 = payload(1) if case["cols"] == "match" else _batch(schema, 1)
+            good1 = payload(1)
             other = pa.RecordBatch.from_arrays([pa.array(["1" * (1 + v % 3)])] + list(good1.columns),
                                                names=["z"] + list(schema.names))
-        elif f0 is not None and pa.types.is_string(f0.type) and v % 2 == 0:
-            # a string column whose offsets point far outside its data buffer
-            import struct as _st
-
-            arr = pa.Array.from_buffers(f0.type, 1, [None, pa.py_buffer(_st.pack("<ii", 0, 1 << 20)), pa.py_buffer(b"ab")])
-            other = pa.RecordBatch.from_arrays([arr] + [pa.array([_value(f.type, 0)], f.type) for f in list(schema)[1:]],
-                                               schema=schema)
+        elif f0 is not None and pa.types.is_string(f0.type) and (v // 4) % 2 == 0 and target is not segs.corrupt:
+            # a string column whose offsets point far outside its data buffer (pyarrow refuses to build such an
+            # array, so a valid batch is stored and its second offset patched in place)
+            valid = pa.RecordBatch.from_arrays([pa.array(["abcdefg"], f0.type)] +
+                                               [pa.array([_value(f.type, 0)], f.type) for f in list(schema)[1:]], schema=schema)
+            off, ln = store(valid)
+            region = bytes(target.buf[off:off + ln])
+            at = region.find(b"abcdefg")
+            if at >= 8 and region[at - 8:at] == b"\x00\x00\x00\x00\x07\x00\x00\x00":
+                target.buf[off + at - 4:off + at] = (1 << 24).to_bytes(4, "little")
+                label["stored"] = "string offsets [0, 16777216] over 7 bytes of data"
+            md[K_OFF], md[K_LEN] = str(off).encode(), str(ln).encode()
+            other = None
         else:
             other = pa.record_batch({"q": pa.array([1.5, 2.5]), "r": pa.array(["a", "b"])})
-        off, ln = store(other)
-        md[K_OFF], md[K_LEN] = str(off).encode(), str(ln).encode()
-        label["stored"] = str(other.schema).replace("\n", "; ")[:80]
+        if other is not None:
+            off, ln = store(other)
+            md[K_OFF], md[K_LEN] = str(off).encode(), str(ln).encode()
+            label["stored"] = str(other.schema).replace("\n", "; ")[:80]
     elif ptr == "garbage":
         g = [(b"xyz", b"100"), (b"", b"100"), (b"-5", b"100"), (b"\xff", b"100"), (b"1.5", b"100"), (b"65536", b"abc"),
              (b"65536", None), (b"65536", b"\xff"), (b"0x10000", b"16")][v % 9]
